@@ -619,3 +619,47 @@ def a_r4_ofx(schema: Schema, rep: Report):
     want = [k for k, ch in spec.items() if ch.kind == "SubAggregate" and isinstance(ch.target, ClassInfo) and defines(ch.target, "securities")]
     ok = bool(attrs) and sorted(set(attrs)) == sorted(want)
     rep.check("A-R4", "OFX.securities:source", ok, f"reads {attrs}; message sets defining `securities`: {want}" if not ok else "", f"{rel}:{fn.lineno}")
+
+
+def a_r5_recomputed_and_picklable(schema: Schema, rep: Report):
+    """shortcuts are recomputed on every read; every object that ends up inside a model can be pickled"""
+    p = schema.p
+    rep.rule("A-R5", "shortcuts follow the tree as it is NOW: no shortcut of a model class is cached (functools.cached_property / lru_cache / cache) - a cached list is frozen at the first read (or the first repr()) and no longer contains what walking the full path finds once the tree has changed")
+    n = 0
+    for cname, ci in schema.exported().items():
+        for c in ci.repo_mro:
+            if c is schema.aggregate or c is schema.elementlist:
+                continue
+            for name, (kind, node) in c.attrs.items():
+                if kind != "func":
+                    continue
+                for dec in node.decorator_list:
+                    dn = (ast.unparse(dec.func) if isinstance(dec, ast.Call) else ast.unparse(dec)).split(".")[-1]
+                    if dn in ("cached_property", "lru_cache", "cache"):
+                        n += 1
+                        rep.check("A-R5", f"{c.name}.{name}:not-cached", False, f"{c.name}.{name} is decorated with {dn}: its first result is kept for the life of the instance, so after the tree changes the shortcut no longer returns the objects found by walking the full path", f"{c.mod.relpath}:{node.lineno}")
+    if n == 0:
+        rep.check("A-R5", "no-cached-shortcuts", True, "", "")
+    rep.rule("A-R6", "every object a model can hold is picklable by reference to a module-level class: the tzinfo bound to utils.UTC (carried by every date/time value) is not an instance of a class defined inside a function - pickle cannot locate '<locals>' classes, so pickling any model that holds a date fails")
+    UTILS_ = "ofxtools.utils"
+    m = p.module(UTILS_)
+    local_classes = {}
+    for f in ast.walk(m.tree):
+        if isinstance(f, (ast.FunctionDef, ast.AsyncFunctionDef)):
+            for x in ast.walk(f):
+                if isinstance(x, ast.ClassDef):
+                    local_classes[x.name] = (f, x)
+    bad = None
+    for st in ast.walk(m.tree):
+        if isinstance(st, ast.Assign) and any(isinstance(t, ast.Name) and t.id == "UTC" for t in st.targets) and isinstance(st.value, ast.Call):
+            callee = st.value.func
+            if isinstance(callee, ast.Name) and callee.id in local_classes:
+                bad = (callee.id, st)
+            elif isinstance(callee, ast.Name):
+                # UTC = factory(): what does the factory return?
+                for f in ast.walk(m.tree):
+                    if isinstance(f, ast.FunctionDef) and f.name == callee.id:
+                        for r in ast.walk(f):
+                            if isinstance(r, ast.Return) and isinstance(r.value, ast.Call) and isinstance(r.value.func, ast.Name) and r.value.func.id in local_classes and local_classes[r.value.func.id][0] is f:
+                                bad = (r.value.func.id, r)
+    rep.check("A-R6", "utils.UTC:class-at-module-level", bad is None, f"utils.UTC can be an instance of {bad[0]}, a class defined inside a function: pickle raises \"Can't pickle local object\" for every model holding a date or time" if bad else "", f"{m.relpath}:{bad[1].lineno if bad else 1}")
